@@ -16,7 +16,9 @@
 #include "cbor/internal/verif_hooks.h"
 #include "h_tree.h"
 
-static int opt_dedup, opt_noops, opt_suffix, opt_lean;
+static int opt_dedup, opt_noops, opt_suffix, opt_lean, opt_faults;
+static long last_load_requests; /* allocator requests made by the most recent cbor_load */
+static int in_fault_run;
 static long opt_stack_kb;
 static long opt_skip = -1, input_index = 0, executed = 0, emitted = 0;
 static const unsigned char* cur_in;
@@ -193,7 +195,7 @@ static void lean_load(const unsigned char* in, size_t len) {
   }
 }
 
-static void one_load(const unsigned char* in, size_t len) {
+static void one_load_core(const unsigned char* in, size_t len) {
   input_index++;
   if (input_index <= opt_skip) return;
   executed++;
@@ -219,7 +221,10 @@ static void one_load(const unsigned char* in, size_t len) {
   ret_events = 0;
   alarm(10);
   fprintf(tr, "{\"e\":\"load\",\"len\":%zu,\"L\":%d}\n", len, CBOR_MAX_STACK_SIZE);
+  long req0 = va.requests;
   cbor_item_t* item = cbor_load(src, len, &res);
+  last_load_requests = va.requests - req0;
+  va_fault_mode = VA_NONE; /* a scheduled refusal applies to the load only */
   /* the input may be overwritten and released at once: nothing in the tree may refer to it */
   memset(blk, 0xEE, len ? len : 1);
   free(blk);
@@ -286,6 +291,24 @@ static void one_load(const unsigned char* in, size_t len) {
     emitted++;
   }
   free(trbuf);
+}
+
+/* one input: the plain load, and (--faults K) the same load again with request k = 0..min(N,K)-1 refused, N being the
+ * number of allocator requests the fault-free load made (C05: MEMERROR just past the head whose allocation was refused,
+ * nothing left allocated) */
+static void one_load(const unsigned char* in, size_t len) {
+  one_load_core(in, len);
+  if (!opt_faults || opt_lean || input_index <= opt_skip) return;
+  long n = last_load_requests;
+  if (n > opt_faults) n = opt_faults;
+  for (long k = 0; k < n; k++) {
+    va_fault_mode = VA_ONLY;
+    va_fault_k = va.requests + k;
+    in_fault_run = 1;
+    one_load_core(in, len);
+    in_fault_run = 0;
+    va_fault_mode = VA_NONE;
+  }
 }
 
 /* ------------------------------------------------------------------ generators */
@@ -609,6 +632,7 @@ static int real_main(int argc, char** argv) {
     else if (!strcmp(argv[a], "--suffix")) opt_suffix = 1;
     else if (!strcmp(argv[a], "--skip")) opt_skip = atol(argv[++a]);
     else if (!strcmp(argv[a], "--lean")) opt_lean = 1;
+    else if (!strcmp(argv[a], "--faults")) opt_faults = atoi(argv[++a]);
     else if (!strcmp(argv[a], "--stack")) opt_stack_kb = atol(argv[++a]);
   }
   if (a >= argc) return 2;
